@@ -33,6 +33,84 @@ from insights.core.spec_factory import (
     SpecSetMeta, TextFileProvider, command_with_args, container_collect, container_execute,
     first_file, foreach_collect, foreach_execute, glob_file, simple_command, simple_file)
 
+from insights.core import spec_factory as _sf
+from insights.core.serde import deserializer as _deserializer, serializer as _serializer
+
+
+# value types beyond the stock ones: subclasses WITHOUT their own (de)serializer ...
+class MyText(TextFileProvider):
+    pass
+
+
+class MyRaw(RawFileProvider):
+    pass
+
+
+class MyCmd(CommandOutputProvider):
+    pass
+
+
+class MyDS(DatasourceProvider):
+    pass
+
+
+class MyCFile(ContainerFileProvider):
+    pass
+
+
+class MyCCmd(ContainerCommandProvider):
+    pass
+
+
+# ... and subclasses WITH a registered serializer/deserializer pair (the stock functions of their base)
+class RegText(TextFileProvider):
+    pass
+
+
+class RegRaw(RawFileProvider):
+    pass
+
+
+class RegCmd(CommandOutputProvider):
+    pass
+
+
+class RegDS(DatasourceProvider):
+    pass
+
+
+KCLS = dict((c.__name__, c) for c in (MyText, MyRaw, MyCmd, MyDS, MyCFile, MyCCmd, RegText, RegRaw, RegCmd, RegDS))
+REGISTERED = (RegText, RegRaw, RegCmd, RegDS)
+for _cls, _ser, _de in ((RegText, _sf.serialize_text_file_provider, _sf.deserialize_text_provider),
+                        (RegRaw, _sf.serialize_raw_file_provider, _sf.deserialize_raw_file_provider),
+                        (RegCmd, _sf.serialize_command_output, _sf.deserialize_command_output),
+                        (RegDS, _sf.serialize_datasource_provider, _sf.deserialize_datasource_provider)):
+    def _mk(f):
+        def g(*a, **kw):
+            return f(*a, **kw)
+        return g
+    _serializer(_cls)(_mk(_ser))
+    _deserializer(_cls)(_mk(_de))
+
+STOCK_ORDER = (ContainerCommandProvider, ContainerFileProvider, CommandOutputProvider, RawFileProvider, TextFileProvider,
+               DatasourceProvider)
+
+
+def typed_kind(p):
+    """(base kind, T): T = "s" stock class, "p" user class registered as a pair, "u" user subclass without
+    registration, "g" the classes of a LOADED archive's providers — decided from the harness's own knowledge of
+    the value's class, not from the implementation's tables"""
+    t = type(p)
+    if t is SerializedRawOutputProvider:
+        return "raw", "g"
+    if t is SerializedOutputProvider:
+        return "text", "g"
+    if t in KIND:
+        return KIND[t], "s"
+    base = next(c for c in STOCK_ORDER if isinstance(p, c))
+    return KIND[base], ("p" if t in REGISTERED else "u")
+
+
 KIND = {TextFileProvider: "text", RawFileProvider: "raw", DatasourceProvider: "datasource",
         CommandOutputProvider: "command", ContainerFileProvider: "containerFile",
         ContainerCommandProvider: "containerCommand"}
@@ -368,6 +446,123 @@ def stream_names(chk, n):
     chk.compare("names: mangle, containment", cases, impl, model)
 
 
+# ----------------------------------------------------------------------------- value types beyond the stock ones; symbolic links
+
+def gen_kind_spec(rng, i, host):
+    t = rng.choice(["kfile", "kfile", "kglob", "kcmd", "kds", "kds", "kcc"])
+    sp = {"t": t, "name": "s%d" % i}
+    form = rng.choice(["none", "none", "file", "dir"])
+    if t == "kfile":
+        sp["K"] = rng.choice(["MyText", "RegText", "MyRaw", "RegRaw"])
+        sp["file"] = gen_file(rng, "/k%d/%s/%s" % (i, gen_word(rng), gen_word(rng)), allow_empty=not host)
+        sp["save_as"] = gen_saveas(rng, form, "S%d" % i)
+    elif t == "kglob":
+        sp["K"] = rng.choice(["MyText", "RegText", "MyRaw", "RegRaw"])
+        sp["files"] = [gen_file(rng, "/k%d/sub%d/f%d.conf" % (i, j, j), allow_empty=not host) for j in range(rng.choice([1, 2, 3]))]
+        sp["pattern"] = "/k%d/*/*.conf" % i
+        sp["save_as"] = gen_saveas(rng, rng.choice(["none", "dir"]), "S%d" % i)
+    elif t == "kcmd":
+        sp["K"] = rng.choice(["MyCmd", "RegCmd"])
+        sp["cmd"] = "/bin/echo %s u%d" % (gen_word(rng), uniq())
+        sp["out"] = cmd_output(rng) or "x\n"
+    elif t == "kcc":
+        sp["K"] = rng.choice(["MyCCmd", "MyCFile"])
+        cid = "c%d%s" % (i, gen_word(rng))
+        sp["cmd"] = ("/usr/bin/env exec %s echo k u%d" % (cid, uniq())) if sp["K"] == "MyCCmd" else \
+            "/usr/bin/env exec %s cat /etc/%s/u%d" % (cid, gen_word(rng), uniq())
+        sp["image"] = "img"
+        sp["out"] = cmd_output(rng) or "x\n"
+    else:
+        n = rng.choice([1, 1, 2, 3])
+        sp["multi"] = n > 1 or rng.random() < 0.3
+        sp["elems"] = []
+        for j in range(n):
+            e = gen_ds_elem(rng, i, j, host)
+            e["lines"] = [l for l in e["lines"] if "\n" not in l and "\r" not in l] or ["x"]
+            e["as_str"] = False
+            e["K"] = rng.choice(["MyDS", "RegDS", None])       # None: the stock class, next to the others in one list
+            sp["elems"].append(e)
+    return sp
+
+
+def gen_kind_world(rng, wid):
+    host = rng.random() < 0.6
+    n = rng.choice([2, 3, 4])
+    specs = [gen_kind_spec(rng, i, host) if rng.random() < 0.75 else gen_spec(rng, i, host) for i in range(n)]
+    return {"id": wid, "host": host, "specs": specs, "seed": rng.getrandbits(32), "pool": 0, "regen": True}
+
+
+def gen_link_nodes(rng, base, name, data):
+    """a path `base/name` that reaches `data` through one of: a relative link, an absolute link (into the root), a link
+    to a file elsewhere under the root, a chain of links; returns the nodes to create"""
+    how = rng.choice(["rel", "abs", "elsewhere", "chain", "chain"])
+    real = "%s/real/%s.data" % (base, name)
+    nodes = [{"path": real, "bytes": data.hex()}]
+    path = "%s/%s" % (base, name)
+    if how == "rel":
+        nodes.append({"path": path, "link": "real/%s.data" % name})
+    elif how == "abs":
+        nodes.append({"path": path, "link": real, "abs": True})
+    elif how == "elsewhere":
+        other = "/elsewhere%s/%s.target" % (base.replace("/", "_"), name)
+        nodes[0]["path"] = other
+        nodes.append({"path": path, "link": os.path.relpath(other, os.path.dirname(path))})
+    else:
+        hops = rng.choice([2, 3])
+        prev = real
+        for h in range(hops - 1):
+            mid = "%s/hop%d_%s" % (base, h, name)
+            if rng.random() < 0.5:
+                nodes.append({"path": mid, "link": os.path.relpath(prev, os.path.dirname(mid))})
+            else:
+                nodes.append({"path": mid, "link": prev, "abs": True})
+            prev = mid
+        nodes.append({"path": path, "link": os.path.relpath(prev, os.path.dirname(path))})
+    return nodes
+
+
+def gen_link_spec(rng, i, host):
+    raw = rng.random() < 0.7
+    t = rng.choice(["lfile", "lfile", "lglob"])
+    sp = {"t": t, "name": "s%d" % i, "raw": raw}
+
+    def data():
+        if raw:
+            return bytes(rng.choice([0, 10, 13, 255, 65, 200, 128, 97]) for _ in range(rng.choice([1, 3, 17, 300])))
+        return ("\n".join(gen_line(rng) or "x" for _ in range(rng.choice([1, 2, 4]))) + "\n").encode("utf-8")
+    if t == "lfile":
+        name = gen_word(rng, 4)
+        sp["nodes"] = gen_link_nodes(rng, "/l%d" % i, name, data())
+        sp["path"] = "/l%d/%s" % (i, name)
+        sp["save_as"] = gen_saveas(rng, rng.choice(["none", "none", "file", "dir"]), "S%d" % i)
+    else:
+        sp["nodes"] = []
+        for j in range(rng.choice([2, 3, 4])):
+            name = "e%d.bin" % j
+            if rng.random() < 0.5:
+                sp["nodes"] += gen_link_nodes(rng, "/l%d/g" % i, name, data())
+            else:
+                sp["nodes"].append({"path": "/l%d/g/%s" % (i, name), "bytes": data().hex()})     # a regular file next to the links
+        sp["pattern"] = "/l%d/g/*.bin" % i
+        sp["save_as"] = gen_saveas(rng, rng.choice(["none", "none", "dir"]), "S%d" % i)
+    return sp
+
+
+def gen_link_world(rng, wid):
+    host = rng.random() < 0.6
+    n = rng.choice([2, 3, 4])
+    specs = []
+    for i in range(n):
+        if rng.random() < 0.7:
+            specs.append(gen_link_spec(rng, i, host))
+        else:                                  # regular raw / text files next to them
+            sp = gen_spec(rng, i, host)
+            while sp["t"] not in ("rawfile", "file", "glob"):
+                sp = gen_spec(rng, i, host)
+            specs.append(sp)
+    return {"id": wid, "host": host, "specs": specs, "seed": rng.getrandbits(32), "pool": 0, "links": True}
+
+
 # ----------------------------------------------------------------------------- failing writers next to successful ones
 
 SECRET = "SECRETX"          # the redaction pattern of the cleaner used in the failure-frame archives
@@ -500,6 +695,14 @@ class World(object):
         with open(p, "wb") as f:
             f.write(data)
 
+    def put_node(self, node):
+        """a regular file or a symbolic link of the source tree (links: relative text, or absolute INTO this root)"""
+        if "link" not in node:
+            return self.put(node["path"], bytes.fromhex(node["bytes"]))
+        p = self.src + node["path"]
+        os.makedirs(os.path.dirname(p), exist_ok=True)
+        os.symlink(self.src + node["link"] if node.get("abs") else node["link"], p)
+
     def build(self):
         world = self
         base = HostContext if self.desc["host"] else ExecutionContext
@@ -522,8 +725,9 @@ class World(object):
         self.expect = {}
         for sp in self.desc["specs"]:
             name, t = sp["name"], sp["t"]
-            multi = t in ("glob", "foreach_collect", "foreach", "ccmd", "cfile", "dsmulti")
-            raw = t in ("rawfile", "rawcmd")
+            multi = t in ("glob", "foreach_collect", "foreach", "ccmd", "cfile", "dsmulti", "kglob", "lglob") or \
+                (t == "kds" and sp["multi"])
+            raw = t in ("rawfile", "rawcmd") or bool(sp.get("raw")) or sp.get("K") in ("MyRaw", "RegRaw")
             points[name] = RegistryPoint(multi_output=multi, raw=raw, filterable=bool(sp.get("filters")),
                                          prio=sp.get("prio", 0))
             self.point_objs = points
@@ -541,6 +745,37 @@ class World(object):
 
     def impl_for(self, sp, impls):
         t, Ctx, world = sp["t"], self.Ctx, self
+        if t in ("lfile", "lglob"):
+            for node in sp["nodes"]:
+                self.put_node(node)
+            kind = RawFileProvider if sp["raw"] else TextFileProvider
+            if t == "lfile":
+                return simple_file(sp["path"], save_as=sp["save_as"], context=Ctx, kind=kind)
+            return glob_file(sp["pattern"], save_as=sp["save_as"], context=Ctx, kind=kind)
+        if t == "kfile":
+            f = sp["file"]
+            self.put(f["path"], file_bytes(f["lines"], f["eol"], f["trail"]))
+            return simple_file(f["path"], save_as=sp["save_as"], context=Ctx, kind=KCLS[sp["K"]])
+        if t == "kglob":
+            for f in sp["files"]:
+                self.put(f["path"], file_bytes(f["lines"], f["eol"], f["trail"]))
+            return glob_file(sp["pattern"], save_as=sp["save_as"], context=Ctx, kind=KCLS[sp["K"]])
+        if t in ("kcmd", "kcc"):
+            self.outputs[self.shlex_key(sp["cmd"])] = ("ok", 0, sp["out"])
+
+            @datasource(Ctx)
+            def kcmd(broker):
+                if t == "kcc":
+                    return KCLS[sp["K"]](sp["cmd"], broker[Ctx], image=sp["image"])
+                return KCLS[sp["K"]](sp["cmd"], broker[Ctx])
+            return kcmd
+        if t == "kds":
+            @datasource(Ctx)
+            def kds(broker):
+                vs = [(KCLS[e["K"]] if e["K"] else DatasourceProvider)(list(e["lines"]), e["rel"], save_as=e["save_as"], ctx=broker[Ctx])
+                      for e in sp["elems"]]
+                return vs if sp["multi"] else vs[0]
+            return kds
         if t in ("ffile", "fcmd", "fds"):
             after = [self.point_objs[sp["after"]]] if sp.get("after") else []
             if t == "ffile":
@@ -715,9 +950,9 @@ def user_saveas_rule(factory, s):
     """the documented normalisation of a user-supplied save_as (doc strings of the spec factories)"""
     if not s:
         return None
-    if factory in ("file", "first", "rawfile", "ffile"):
+    if factory in ("file", "first", "rawfile", "ffile", "kfile", "lfile"):
         r = s.lstrip("/")
-    elif factory in ("glob", "foreach_collect"):
+    elif factory in ("glob", "foreach_collect", "kglob", "lglob"):
         r = s.lstrip("/")
         if r and not r.endswith("/"):
             r += "/"
@@ -782,9 +1017,9 @@ def observe_before(w):
         if v is not None:
             fails = elem_fail_flags(sp)
             for j, p in enumerate(v if isinstance(v, list) else [v]):
-                kind = KIND[type(p)]
+                kind, T = typed_kind(p)
                 content = persisted_content(p)
-                elems.append({"idx": j, "kind": kind, "rel": p.relative_path, "save_as": p.save_as, "cmd": p.cmd,
+                elems.append({"idx": j, "T": T, "kind": kind, "rel": p.relative_path, "save_as": p.save_as, "cmd": p.cmd,
                               "args": p.args, "image": getattr(p, "image", None), "engine": getattr(p, "engine", None),
                               "cid": getattr(p, "container_id", None), "fail": fails[j] if j < len(fails) else False,
                               "content": content, "raw": isinstance(p, RawFileProvider),
@@ -816,6 +1051,8 @@ def not_collected(desc, e):
     """under a HostContext empty content is refused (raw files are copied without looking at the content)"""
     if e["fail"]:
         return True
+    if e.get("T") in ("u", "g"):        # no serializer for the value's exact type: persisted with the TypeError only
+        return True
     if not desc["host"] or e["raw"]:
         return False
     return e["content"] == [] or (e["unsplit"] and e["content"] == [""])
@@ -839,7 +1076,7 @@ def proto_collect(w, obs):
     for o in obs:
         for e in o["elems"]:
             content = e["content"] if (e["content"] is not None and not e["fail"]) else []
-            lines.append("\t".join(["elem", e["kind"], enc(e["rel"]), opt(e["save_as"]), opt(e["cmd"]),
+            lines.append("\t".join(["elem", e["kind"] if e.get("T", "s") == "s" else e["T"] + ":" + e["kind"], enc(e["rel"]), opt(e["save_as"]), opt(e["cmd"]),
                                     canon_args(e["args"]), opt(e["image"]), opt(e["engine"]), opt(e["cid"]),
                                     "7" if e["fail"] else "-", "1" if e["unsplit"] else "0", str(len(content))] +
                                    [enc(l) for l in content]))
@@ -1039,6 +1276,10 @@ def _run_world(w, desc, patterns, fail, count):
         rs = doc["results"] if isinstance(doc["results"], list) else [doc["results"]]
         for j, r in enumerate(rs):
             rel = r["object"]["relative_path"]
+            if os.path.islink(os.path.join(w.out, "data", rel.lstrip("/"))):
+                fail("the archive contains a symbolic link instead of the content: data/%s -> %s (document of %s, element %d)"
+                     % (rel, os.readlink(os.path.join(w.out, "data", rel.lstrip("/"))), o["sp"]["t"], j),
+                     _case(desc, spec=o["sp"]["name"], elem=j), None)
             if not os.path.isfile(os.path.join(w.out, "data", rel.lstrip("/"))):
                 missing_data.add(rel)
                 fail("a persisted component's data is missing: the document of %s names data/%s (element %d) and no such file "
@@ -1046,6 +1287,46 @@ def _run_world(w, desc, patterns, fail, count):
                      _case(desc, spec=o["sp"]["name"], elem=j), None)
     if missing_data:
         count("archive:document names a data file that is not there")
+
+    # ---- specs collected THROUGH symbolic links: right after collection the data file is a regular file holding
+    #      the bytes the link resolves to (ground truth: the operating system's own resolution of the source path)
+    for o in obs:
+        sp = o["sp"]
+        if sp["t"] not in ("lfile", "lglob"):
+            continue
+        for e in o["elems"]:
+            if not_collected(desc, e):
+                continue
+            usa = user_saveas_rule(sp["t"], sp["save_as"])
+            loc = expected_location(e["kind"], e["rel"], usa)
+            pth = os.path.join(w.out, "data", loc)
+            with open(os.path.join(w.src, e["rel"]), "rb") as fh:
+                want = fh.read()
+            through_link = os.path.islink(os.path.join(w.src, e["rel"]))
+            count("links:%s element %s" % ("raw" if e["raw"] else "text", "through a link" if through_link else "regular file"))
+            where = _case(desc, spec=sp["name"], elem=e["idx"])
+            if os.path.islink(pth):
+                got = "link:" + enc(os.readlink(pth))
+                fail("the archive holds the LINK data/%s -> %s, not the bytes it points to" % (loc, os.readlink(pth)), where, None)
+            elif os.path.isfile(pth):
+                with open(pth, "rb") as fh:
+                    data = fh.read()
+                got = "file:" + enc(data.decode("latin-1"))
+                if e["raw"] and data != want:
+                    fail("the archive's data/%s does not hold the bytes the source path resolves to" % loc, where, None)
+            else:
+                got = "none"
+            if e["raw"]:
+                nodes = []
+                for node in sp["nodes"]:
+                    key = node["path"]
+                    if "link" in node:
+                        tgt = node["link"] if node.get("abs") else os.path.normpath(os.path.join(os.path.dirname(key), node["link"]))
+                        nodes.append("%s>l>%s" % (enc(key), enc(tgt)))
+                    else:
+                        nodes.append("%s>f>%s" % (enc(key), enc(bytes.fromhex(node["bytes"]).decode("latin-1"))))
+                lines.append("praw\t%s\t%s" % (",".join(nodes), enc("/" + e["rel"])))
+                impl.append(got); keep.append(True)
 
     # ---- pooled collection must persist exactly what serial collection of the same specs persists
     if desc.get("pool"):
@@ -1117,6 +1398,17 @@ def _run_world(w, desc, patterns, fail, count):
     intact = {}
     add_hydrate_answers(w, obs, broker, lines, impl, keep, intact)
 
+    # ---- writer and reader agree on every value type: a document WITH results loads all of them
+    for o in obs:
+        doc = docs[o["name"]]
+        if doc and doc.get("results"):
+            n = len(doc["results"]) if isinstance(doc["results"], list) else 1
+            v = broker.get(o["point"])
+            got_n = 0 if v is None else (len(v) if isinstance(v, list) else 1)
+            if got_n != n:
+                fail("the document of %s lists %d results (types %s) and %d providers load — persisted with results but not loadable"
+                     % (o["sp"]["t"], n, sorted(set(r["type"].rsplit(".", 1)[-1] for r in (doc["results"] if isinstance(doc["results"], list) else [doc["results"]]))), got_n),
+                     _case(desc, spec=o["sp"]["name"]), None)
     # ---- oracle part 2: what was persisted is what is loaded
     for o in obs:
         sp, name = o["sp"], o["name"]
@@ -1137,6 +1429,8 @@ def _run_world(w, desc, patterns, fail, count):
                 usa = (sp["elem"] if sp["t"] == "ds" else sp["elems"][e["idx"]])["save_as"]
             elif sp["t"] == "fds":
                 usa = sp["save_as"]
+            elif sp["t"] == "kds":
+                usa = sp["elems"][e["idx"]]["save_as"]
             elif "save_as" in sp:
                 usa = user_saveas_rule(sp["t"], sp["save_as"])
             else:
@@ -1257,7 +1551,72 @@ def _run_world(w, desc, patterns, fail, count):
                 elif got[key][0] != val[0]:
                     fail("an intact entry loaded differently next to corrupted ones", _case(desc, pattern=pat, spec=o["sp"]["name"]), None)
         shutil.rmtree(root)
+
+    if desc.get("regen"):
+        second_generation(w, desc, obs, broker, intact, lines, impl, keep, fail, count)
     return lines, impl, keep
+
+
+def second_generation(w, desc, obs, broker, intact, lines, impl, keep, fail, count):
+    """archive -> hydrate -> dehydrate AGAIN (the loaded broker's SerializedOutputProvider values) -> hydrate again:
+    every document of the second archive that has results must load with the same content; a value without
+    a serializer is persisted with its errors only"""
+    broker, err = hydrate_archive(w.out, False)       # a fresh load: exactly what the archive yields, nothing evaluated since
+    if err:
+        return
+    out2 = os.path.join(w.tmp, "out2")
+    os.makedirs(out2)
+    h2 = Hydration(out2, SerializedArchiveContext(w.out))
+    persister = h2.make_persister(set(w.points))
+    lines.append("new\t0\t%s" % enc("D")); impl.append("ok"); keep.append(False)
+    regen = []
+    for o in obs:
+        v = broker.get(o["point"])
+        if v is None:
+            continue
+        try:
+            persister(o["point"], broker)
+        except Exception as ex:
+            fail("persisting a loaded broker raised %s: %s" % (type(ex).__name__, ex), _case(desc, spec=o["sp"]["name"]), None)
+            continue
+        vs = v if isinstance(v, list) else [v]
+        for j, p in enumerate(vs):
+            kind, T = typed_kind(p)
+            content = intact.get((o["name"], j), (None, None))[1] or []
+            lines.append("\t".join(["elem", T + ":" + kind if T != "s" else kind, enc(p.relative_path), opt(p.save_as), opt(p.cmd),
+                                    canon_args(p.args), opt(getattr(p, "image", None)), opt(getattr(p, "engine", None)),
+                                    opt(getattr(p, "container_id", None)), "-", "0", str(len(content))] + [enc(l) for l in content]))
+            impl.append("ok"); keep.append(False)
+        summ, doc = impl_doc_summary(os.path.join(out2, "meta_data", o["name"] + ".json"))
+        lines.append("spec\t%s\t%s\t0" % (enc(o["name"]), "m" if isinstance(v, list) else "s"))
+        impl.append(summ); keep.append(True)
+        regen.append((o, vs, doc))
+        count("regen:document " + ("with results" if doc and doc.get("results") else "errors only" if doc and doc["errors"] else "none"))
+    b2 = None
+    if os.path.isdir(os.path.join(out2, "meta_data")):
+        b2, err = hydrate_archive(out2, False)
+        if err:
+            fail("hydrating the second-generation archive raised: " + err, _case(desc), None)
+            b2 = None
+    for o, vs, doc in regen:
+        where = _case(desc, spec=o["sp"]["name"], generation=2)
+        if doc is None or not (doc.get("results") or doc["errors"]):
+            fail("a loaded value persisted again left neither results nor errors", where, None)
+            continue
+        if not doc.get("results"):
+            continue
+        rs = doc["results"] if isinstance(doc["results"], list) else [doc["results"]]
+        v2 = b2.get(o["point"]) if b2 is not None else None
+        l2 = [] if v2 is None else (v2 if isinstance(v2, list) else [v2])
+        if len(l2) != len(rs):
+            fail("second generation: the document has %d results and %d providers load (persisted with results but not loadable)"
+                 % (len(rs), len(l2)), where, None)
+            continue
+        firsts = [intact.get((o["name"], j), (None, None))[1] for j in range(len(vs))]
+        for p2 in l2:
+            c2 = loaded_summary(p2)[1]
+            if c2 is None or c2 not in firsts:
+                fail("second generation: a provider loads with content none of the persisted values had", where, None)
 
 
 def add_hydrate_answers(w, obs, broker, lines, impl, keep, store):
@@ -1455,7 +1814,7 @@ def run(chk):
     logging.disable(logging.CRITICAL)
     rng = chk.rng
     quick = chk.tier == "quick"
-    n_worlds = 240 if quick else 4000
+    n_worlds = 200 if quick else 4000
     n_text = 600 if quick else 20000
     chk.rule = ("archives of 2-6 specs over every spec factory / provider kind (text, raw, first_file, glob, foreach_collect, "
                 "command, command_with_args, foreach_execute, container command/file, datasource single/multi, failing "
@@ -1468,7 +1827,11 @@ def run(chk):
                 "+ 3 corrupted hydrations per archive (delete, truncate, garbage, unknown name, directory, bad UTF-8, wrong "
                 "shapes, data file removed; sparse, dense and total patterns); plus dot-name archives: file, glob, command (plain, with args, "
                 "foreach, container command/file, names cut at 255 characters) and datasource specs whose paths / arguments / relative_path / "
-                "save_as carry .hidden, a., ..., renamed..out, ..data, spaces, %, Unicode — never a real '..' component; plus failure-frame archives: 2-6 components under a HostContext "
+                "save_as carry .hidden, a., ..., renamed..out, ..data, spaces, %, Unicode — never a real '..' component; plus archives whose values "
+                "are subclasses of every stock provider class without registration and subclasses registered as serializer/deserializer pairs "
+                "(kind= of the file factories, datasources returning them, mixed lists), every loaded broker of those and of a quarter of the "
+                "generic archives persisted AGAIN and hydrated again; plus raw and text file / glob specs whose path is a relative link, an absolute "
+                "link into the root, a link elsewhere under the root or a chain of links, next to regular files; plus failure-frame archives: 2-6 components under a HostContext "
                 "with a cleaner, persisted by dr.run_all over the sub-graphs of one broker, destinations shared at random (same file through "
                 "two registry points with different filters, same save_as), a random subset failing at serialization (empty, empty after "
                 "filtering, empty after cleaning, CalledProcessError from load, destination that cannot be opened), order forced by "
@@ -1513,6 +1876,8 @@ def run(chk):
         return 8000
     for wi in range(n_worlds):
         desc = gen_world(rng, wi, chk.tier, long_len=(100000 if quick else 400000) if wi == long_at else 0, big=big)
+        if wi % 4 == 1:
+            desc["regen"] = True          # persist the loaded broker again (second-generation archive)
         pats = gen_patterns(rng, len(desc["specs"]), 3 if not desc["pool"] else 2)
         ls, im, kp = run_world(desc, pats, fail, chk.count)
         all_lines += ls; all_impl += im; all_keep += kp
@@ -1523,7 +1888,7 @@ def run(chk):
             chk.sample({"archive": [dict((k, v) for k, v in sp.items() if k in ("t", "save_as", "cmd", "pattern")) for sp in desc["specs"]],
                         "host": desc["host"], "corruptions": [[c["cls"] for c in p] for p in pats]})
     # ---- archives whose locations carry dot patterns that are no parent references: everything persisted must load
-    n_dot = 60 if quick else 1500
+    n_dot = 50 if quick else 1500
     for wi in range(n_dot):
         desc = gen_dot_world(rng, 200000 + wi)
         pats = gen_patterns(rng, len(desc["specs"]), 1)
@@ -1535,8 +1900,22 @@ def run(chk):
         if wi < 1:
             chk.sample({"dot-name archive": [dict((k, v) for k, v in sp.items() if k in ("t", "save_as", "cmd", "pattern")) for sp in desc["specs"]]})
 
+    # ---- value types beyond the stock ones + second generation; specs collected through symbolic links
+    for tag, gen, n_ in (("kinds", gen_kind_world, 40 if quick else 1500), ("links", gen_link_world, 30 if quick else 1500)):
+        for wi in range(n_):
+            desc = gen(rng, (300000 if tag == "kinds" else 400000) + wi)
+            pats = gen_patterns(rng, len(desc["specs"]), 1)
+            ls, im, kp = run_world(desc, pats, fail, chk.count)
+            all_lines += ls; all_impl += im; all_keep += kp
+            all_cases += [(tag, wi, l.split("\t")[0]) for l in ls]
+            chk.case((tag, json.dumps(desc, sort_keys=True)), True)
+            chk.count(tag + ":archives")
+            if wi < 1:
+                chk.sample({tag + " archive": [dict((k, v) for k, v in sp.items() if k in ("t", "K", "raw", "save_as", "path", "pattern", "cmd"))
+                                               for sp in desc["specs"]]})
+
     # ---- failure-frame archives: failing writers next to successful ones, shared destinations, run_all
-    n_frame = 150 if quick else 3000
+    n_frame = 120 if quick else 3000
     for wi in range(n_frame):
         desc = gen_frame_world(rng, 100000 + wi)
         pats = gen_patterns(rng, len(desc["specs"]), 1)
